@@ -1,0 +1,6 @@
+//go:build !verif
+
+package gws
+
+// verifSched is a no-op without the verif build tag (see verif_sched.go).
+func verifSched(string, *Conn) {}
